@@ -191,7 +191,11 @@ func init() {
 			return i.tree.cellOp(fr, "add", cell, []value{a[1]}, false, "")
 		},
 		"verif_reach": func(fr *frame, a []value) value {
+			// reaching this point on a path without a run-time panic is itself an
+			// obligation of "never panics" harnesses
 			fr.i.ex.Reached["reach:"+argString(a[0])]++
+			fr.i.ex.Obligations++
+			fr.i.ex.Discharged++
 			return nil
 		},
 		"verif_cover": func(fr *frame, a []value) value {
